@@ -25,6 +25,71 @@ def is_limit(e: ast.AST) -> bool:
     return d.rsplit(".", 1)[-1].lstrip("_") == "examples_per_shard"
 
 
+def check_couple(ctx: Context, rep, rule: str) -> None:
+    from sa.rules.common import reaches, helper_assigns
+    we = ctx.fn(WRITE_EXAMPLE)
+    cfg = ctx.cfg(we)
+    close_sites = cfg.calls(lambda c: reaches(ctx, we, c, CLOSE_SHARD))
+    writes = [
+        n for n in cfg.calls()
+        if isinstance(n.ast.func, ast.Attribute) and n.ast.func.attr == "write"
+        and any(t.qualname == "Shard.write"
+                for t in ctx.internal_targets(we, n.ast))
+    ]
+    # coupling of shard rebinding and counter reset
+    rep.rule(
+        rule,
+        "every rebinding of the progress record's shard sits in one block "
+        "with `written_examples = 0`, after the close of the previous shard; "
+        "every counter reset sits with a shard rebinding")
+    def assigns_shard(st):
+        return isinstance(st, ast.Assign) and any(
+            isinstance(t, ast.Attribute) and t.attr == "shard"
+            for t in st.targets)
+
+    def resets_counter(st):
+        return isinstance(st, ast.Assign) and any(
+            is_counter(t) for t in st.targets) and isinstance(
+                st.value, ast.Constant) and st.value.value == 0
+
+    norm = lambda a, b, lab: lab not in ("exc", "raise")  # noqa: E731
+    opens = [n for n in cfg.nodes if (n.kind == "stmt" and assigns_shard(n.ast))
+             or (n.kind == "call" and helper_assigns(ctx, we, n.ast,
+                                                    assigns_shard))]
+    resets = [n for n in cfg.nodes if (n.kind == "stmt" and
+                                       resets_counter(n.ast)) or (
+        n.kind == "call" and helper_assigns(ctx, we, n.ast, resets_counter))]
+    if not opens:
+        raise AnalysisError("C10.couple: no shard rebinding in write_example")
+    for o in opens:
+        after = cfg.reachable([o], avoiding=resets, strict=True, follow=norm)
+        if o in resets:
+            after = set()
+        bad = [w for w in writes if w in after]
+        rep.ob(rule, not bad, loc=we.loc(o.ast), where=we.qualname,
+               construct=short(o.ast, 70),
+               message="after a new shard is opened the counter must be "
+               "reset to 0 before the next write (otherwise the new shard is "
+               "closed early or grows past the limit)",
+               path=cfg.describe_path(cfg.path_to(bad[0])) if bad else "")
+        missed = cfg.always_before(close_sites, [o], normal_only=True)
+        rep.ob(rule, not missed, loc=we.loc(o.ast), where=we.qualname,
+               construct="close_shard ... " + short(o.ast, 50),
+               message="the previous shard is closed (and listed) before the "
+               "progress record is pointed at a new one")
+    for r in resets:
+        if r in opens:
+            continue
+        before = cfg.reachable([cfg.entry], avoiding=opens, follow=norm)
+        after = cfg.reachable([r], avoiding=opens, strict=True, follow=norm)
+        bad = r in before and any(w in after for w in writes)
+        rep.ob(rule, not bad, loc=we.loc(r.ast), where=we.qualname,
+               construct=short(r.ast),
+               message="a counter reset without a new shard lets a shard grow "
+               "beyond the limit")
+
+
+
 def run(ctx: Context, rep) -> None:
     rep.not_decided = (
         "that ShardInfo.number_of_examples equals what is in the file (C04); "
@@ -146,57 +211,7 @@ def run(ctx: Context, rep) -> None:
                "only for a full shard (d >= 0); under the invariant it gives "
                f"d in {fmt(iv)}")
 
-    # coupling of shard rebinding and counter reset
-    rep.rule(
-        "C10.couple",
-        "every rebinding of the progress record's shard sits in one block "
-        "with `written_examples = 0`, after the close of the previous shard; "
-        "every counter reset sits with a shard rebinding")
-    def assigns_shard(st):
-        return isinstance(st, ast.Assign) and any(
-            isinstance(t, ast.Attribute) and t.attr == "shard"
-            for t in st.targets)
-
-    def resets_counter(st):
-        return isinstance(st, ast.Assign) and any(
-            is_counter(t) for t in st.targets) and isinstance(
-                st.value, ast.Constant) and st.value.value == 0
-
-    norm = lambda a, b, lab: lab not in ("exc", "raise")  # noqa: E731
-    opens = [n for n in cfg.nodes if (n.kind == "stmt" and assigns_shard(n.ast))
-             or (n.kind == "call" and helper_assigns(ctx, we, n.ast,
-                                                    assigns_shard))]
-    resets = [n for n in cfg.nodes if (n.kind == "stmt" and
-                                       resets_counter(n.ast)) or (
-        n.kind == "call" and helper_assigns(ctx, we, n.ast, resets_counter))]
-    if not opens:
-        raise AnalysisError("C10.couple: no shard rebinding in write_example")
-    for o in opens:
-        after = cfg.reachable([o], avoiding=resets, strict=True, follow=norm)
-        if o in resets:
-            after = set()
-        bad = [w for w in writes if w in after]
-        rep.ob("C10.couple", not bad, loc=we.loc(o.ast), where=we.qualname,
-               construct=short(o.ast, 70),
-               message="after a new shard is opened the counter must be "
-               "reset to 0 before the next write (otherwise the new shard is "
-               "closed early or grows past the limit)",
-               path=cfg.describe_path(cfg.path_to(bad[0])) if bad else "")
-        missed = cfg.always_before(close_sites, [o], normal_only=True)
-        rep.ob("C10.couple", not missed, loc=we.loc(o.ast), where=we.qualname,
-               construct="close_shard ... " + short(o.ast, 50),
-               message="the previous shard is closed (and listed) before the "
-               "progress record is pointed at a new one")
-    for r in resets:
-        if r in opens:
-            continue
-        before = cfg.reachable([cfg.entry], avoiding=opens, follow=norm)
-        after = cfg.reachable([r], avoiding=opens, strict=True, follow=norm)
-        bad = r in before and any(w in after for w in writes)
-        rep.ob("C10.couple", not bad, loc=we.loc(r.ast), where=we.qualname,
-               construct=short(r.ast),
-               message="a counter reset without a new shard lets a shard grow "
-               "beyond the limit")
+    check_couple(ctx, rep, "C10.couple")
 
     from sa.rules.c18 import check_counters
     check_counters(ctx, rep, "C10.count")
